@@ -86,6 +86,19 @@ def _cmp(ga, gb, tol):
     return float(np.abs(a - b).max()) / (tol * sc)
 
 
+_SHARED = {}
+
+
+def _shared(name):
+    """ONE Sum() and ONE Mean() instance per worker process, reused over all cases (row counts go up and down between cases): an
+    aggregator whose result depends on earlier calls - e.g. cached weights re-used for a smaller matrix - disagrees with autograd."""
+    from torchjd.aggregation import Mean, Sum
+
+    if name not in _SHARED:
+        _SHARED[name] = Sum() if name == "sum" else Mean()
+    return _SHARED[name]
+
+
 def _run_bw(case):
     import torch
     from torchjd import backward
@@ -123,9 +136,9 @@ def _run_bw(case):
         if inputs in ("all", "gen"):
             inputs = leaves
         if w == "sum":
-            agg, wv = Sum(), [1.0] * m
+            agg, wv = _shared("sum"), [1.0] * m
         elif w == "mean":
-            agg, wv = Mean(), [1.0 / m] * m
+            agg, wv = _shared("mean"), [1.0 / m] * m
         else:
             agg, wv = Constant(torch.tensor(w, dtype=torch.float64)), w
         for i in leaves:
@@ -186,9 +199,9 @@ def _run_mtl(case):
         t = A["ref"].t
         grad_leaves = [i for i in range(t.nleaves) if t.req[i]]
         if w == "sum":
-            agg, wv = Sum(), [1.0] * nt
+            agg, wv = _shared("sum"), [1.0] * nt
         elif w == "mean":
-            agg, wv = Mean(), [1.0 / nt] * nt
+            agg, wv = _shared("mean"), [1.0 / nt] * nt
         else:
             agg, wv = Constant(torch.tensor(w, dtype=torch.float64)), w
         cfg = f"w={w} params={mode} chunk={chunk}"
